@@ -2,6 +2,7 @@
 from __future__ import annotations
 
 import ast
+import re
 from typing import Dict, List
 
 from .. import anchors as A
@@ -39,13 +40,11 @@ def check(P: Project, R: Report) -> None:
     # the cleanup routine is the self-method __aexit__ awaits first; the connection task's entry is the self-method
     # __aenter__ starts as a task that is not the sender loop over the outgoing stream
     cleanup = None
-    for s in meths["__aexit__"].node.body:
-        if isinstance(s, ast.Expr) and isinstance(s.value, ast.Constant):
-            continue
-        if isinstance(s, ast.Expr) and isinstance(s.value, ast.Await) and isinstance(s.value.value, ast.Call) and call_name(s.value.value).startswith("self."):
-            cleanup = meths.get(call_name(s.value.value)[5:])
-        break
-    R.need(cleanup is not None, "anchor vanished: __aexit__ does not start by awaiting a cleanup method of the transport")
+    for n_ in walk_local(meths["__aexit__"].node):
+        if isinstance(n_, ast.Await) and isinstance(n_.value, ast.Call) and call_name(n_.value).startswith("self.") and call_name(n_.value)[5:] in meths:
+            cleanup = meths[call_name(n_.value)[5:]]
+            break
+    R.need(cleanup is not None, "anchor vanished: __aexit__ awaits no cleanup method of the transport")
     out_recv = "self." + stream_roles(P, ci)["outgoing_recv"]
     conn_entry = sender_entry = None
     for c in walk_local(meths["__aenter__"].node):
@@ -72,11 +71,70 @@ def check(P: Project, R: Report) -> None:
     an.parents = {**A.exception_parents(P), "asyncio.TimeoutError": "TimeoutError"}
     R.paths += len(out.ret) + len(out.exc)
     R.need(out.ret, "__aenter__ has no successful return")
+    # which attributes say "the server announced its endpoint"?  Derived, not named: an attribute qualifies iff every
+    # store to it in the class is a falsy constant or sits in code that only runs while events are dispatched — i.e. in a
+    # method reachable from the event-stream read loop through self-calls (and in none of __init__/__aenter__/the
+    # connection entry/the cleanup, which run whether or not anything was announced)
+    readers = [f for f in meths.values() if any(isinstance(n, ast.AsyncFor) and "aiter_" in ast.unparse(n.iter) for n in walk_local(f.node))]
+    R.need(len(readers) == 1, "anchor: event-stream reader loop not found")
+    reach = {readers[0].name}
+    work = [readers[0]]
+    while work:
+        g = work.pop()
+        for c in walk_local(g.node):
+            if isinstance(c, ast.Call) and call_name(c).startswith("self.") and call_name(c)[5:] in meths and call_name(c)[5:] not in reach:
+                reach.add(call_name(c)[5:])
+                work.append(meths[call_name(c)[5:]])
+    # only what runs *per event* counts: the reader's own prologue (before its loop) runs on any 200
+    event_only = reach - {readers[0].name, "__init__", "__aenter__", conn_entry.name, cleanup.name}
+
+    def _falsy(v):
+        return isinstance(v, ast.Constant) and not v.value
+
+    def announced_only(attr: str):
+        bad = []
+        n_ev = 0
+        for f in meths.values():
+            for n in walk_local(f.node):
+                tgs = n.targets if isinstance(n, ast.Assign) else ([n.target] if isinstance(n, (ast.AnnAssign, ast.AugAssign)) else [])
+                for t in tgs:
+                    for tt in ast.walk(t):
+                        if isinstance(tt, ast.Attribute) and tt.attr == attr and isinstance(tt.value, ast.Name) and tt.value.id == "self":
+                            v = getattr(n, "value", None)
+                            if v is not None and _falsy(v):
+                                continue
+                            if f.name in event_only:
+                                n_ev += 1
+                                continue
+                            bad.append(f"{f.name} line {n.lineno}: `{ast.unparse(n)[:60]}`")
+        return bad, n_ev
+
+    def guard_attrs(lits):
+        out = set()
+        for l in lits:
+            m = re.fullmatch(r"self\.(\w+)(?: is not None)?", l)
+            if m:
+                out.add(m.group(1))
+            m = re.fullmatch(r"self\.(\w+)\(\)", l)
+            if m and m.group(1) in meths:
+                rets = [r.value for r in walk_local(meths[m.group(1)].node) if isinstance(r, ast.Return) and r.value is not None]
+                if len(rets) == 1:
+                    parts = rets[0].values if isinstance(rets[0], ast.BoolOp) and isinstance(rets[0].op, ast.And) else [rets[0]]
+                    for p_ in parts:
+                        m2 = re.fullmatch(r"self\.(\w+)(?: is not None)?", ast.unparse(p_))
+                        if m2:
+                            out.add(m2.group(1))
+        return out
+
     for st, node in out.ret:
-        live = any(l in st.lits for l in ("self._message_url", "self._message_url is not None", "self.is_connected()"))
-        R.ob("R1", "successful entry only with an announced endpoint", live, f"{rel}:{node.lineno}",
-             f"__aenter__ returns on a path that never tested the message endpoint (literals {sorted(l[:40] for l in st.lits)}): the ready flag is also set when the connection task fails, so a dead connection is handed out",
-             sample=f"R1 __aenter__ returns under {sorted(l for l in st.lits if 'message_url' in l or 'connected' in l)}")
+        cands = guard_attrs(st.lits)
+        verdicts = {a: announced_only(a) for a in sorted(cands)}
+        good = [a for a, (bad, n_ev) in verdicts.items() if not bad and n_ev > 0]
+        why = "; ".join(f"self.{a} is also set outside event handling ({', '.join(bad[:2])})" for a, (bad, _n) in verdicts.items() if bad)
+        R.ob("R1", "successful entry only with an announced endpoint", bool(good), f"{rel}:{node.lineno}",
+             (f"__aenter__ returns on a path whose tests {sorted(cands)} do not establish an announcement: {why}" if cands else
+              f"__aenter__ returns on a path that never tested the message endpoint (literals {sorted(l[:40] for l in st.lits)})") + " — the ready flag is also set when the connection task fails, so a dead connection is handed out",
+             sample=f"R1 __aenter__ returns under self.{good[0] if good else '?'} (stored only while dispatching events: {sorted(event_only)[:4]}…)")
     for st, tag, node in out.exc:
         if isinstance(node, ast.Raise) and tag != CANCEL:
             R.ob("R1", f"failure path raising {tag} has cleaned up", "cleanup" in st.events, f"{rel}:{node.lineno}", f"events before the raise: {list(st.events)}")
